@@ -502,6 +502,7 @@ func callSSA(i *interpreter, caller *frame, callpos token.Pos, fn *ssa.Function,
 		name := fn.String()
 		if ext := externals[name]; ext != nil {
 			i.ex.intrinsics[name] = true
+			i.ex.lastIntr = name + " called from " + callerName(caller)
 			i.recordReceiverAccess(fr, name, args)
 			return ext(fr, args)
 		}
@@ -710,4 +711,11 @@ func (i *interpreter) recordReceiverAccess(fr *frame, name string, args []value)
 	m := name[strings.LastIndexByte(name, '.')+1:]
 	write := strings.HasPrefix(m, "Write") || m == "Reset" || m == "Grow" || m == "Truncate" || strings.HasPrefix(m, "Read") || m == "Next" || strings.HasPrefix(m, "Unread")
 	i.sched.access(fr, recv, write)
+}
+
+func callerName(fr *frame) string {
+	if fr == nil || fr.fn == nil {
+		return "?"
+	}
+	return fr.fn.String()
 }
